@@ -526,12 +526,13 @@ pack_return_value(ostream &out, int indent_level,
       << "return PyLong_FromUnsignedLong(" << return_expr << ");\n";
 
   } else if (TypeManager::is_integer(type)) {
+    // The cast is needed for a scoped enum, which does not convert implicitly.
     out << "#if PY_MAJOR_VERSION >= 3\n";
     indent(out, indent_level)
-      << "return PyLong_FromLong(" << return_expr << ");\n";
+      << "return PyLong_FromLong((long)" << return_expr << ");\n";
     out << "#else\n";
     indent(out, indent_level)
-      << "return PyInt_FromLong(" << return_expr << ");\n";
+      << "return PyInt_FromLong((long)" << return_expr << ");\n";
     out << "#endif\n";
 
   } else if (TypeManager::is_float(type)) {
